@@ -81,7 +81,7 @@ func IsMethodCall(c *ssa.CallCommon, recv *types.Named, name string) bool {
 		return namedOf(c.Value.Type()) == recv
 	}
 	f := c.StaticCallee()
-	if f == nil || f.Name() != name || f.Signature.Recv() == nil {
+	if f == nil || Origin(f).Name() != name || f.Signature.Recv() == nil {
 		return false
 	}
 	return namedOf(f.Signature.Recv().Type()) == originNamed(recv)
